@@ -185,7 +185,8 @@ func runCase(t *rapid.T, ip *interp, k kase) {
 }
 
 func TestUntypedTrees(t *testing.T) {
-	rec.Check(t, rec.Scale(2000, 40000), func(t *rapid.T) {
+	warmup()
+	rec.Check(t, rec.Scale(2000, 15000), func(t *rapid.T) {
 		ip := getInterp()
 		depth := rapid.IntRange(1, 6).Draw(t, "depth")
 		e := genExpr(t, drawKind(t), depth)
@@ -213,7 +214,8 @@ func typeFor(t *rapid.T, k ekind) string {
 }
 
 func TestTypedContexts(t *testing.T) {
-	rec.Check(t, rec.Scale(2000, 40000), func(t *rapid.T) {
+	warmup()
+	rec.Check(t, rec.Scale(2000, 15000), func(t *rapid.T) {
 		ip := getInterp()
 		k := drawKind(t)
 		e := genExpr(t, k, rapid.IntRange(0, 4).Draw(t, "depth"))
@@ -223,7 +225,8 @@ func TestTypedContexts(t *testing.T) {
 }
 
 func TestBigContexts(t *testing.T) {
-	rec.Check(t, rec.Scale(1000, 20000), func(t *rapid.T) {
+	warmup()
+	rec.Check(t, rec.Scale(1000, 6000), func(t *rapid.T) {
 		ip := getInterp()
 		k := ekind(rapid.SampledFrom([]int{0, 0, 1, 2, 2, 2}).Draw(t, "kind"))
 		e := genExpr(t, k, rapid.IntRange(0, 4).Draw(t, "depth"))
@@ -233,7 +236,8 @@ func TestBigContexts(t *testing.T) {
 
 // const blocks with iota and implicit repetition
 func TestConstDecls(t *testing.T) {
-	rec.Check(t, rec.Scale(120, 4000), func(t *rapid.T) {
+	warmup()
+	rec.Check(t, rec.Scale(120, 1500), func(t *rapid.T) {
 		n := rapid.IntRange(1, 5).Draw(t, "nconst")
 		var sb strings.Builder
 		sb.WriteString("const (\n")
@@ -405,5 +409,13 @@ func TestBigEnumerated(t *testing.T) {
 				}
 			}
 		}
+	}
+}
+
+// warmup creates the shared interpreter before rapid starts timing its iterations: rapid ends a run
+// early when one iteration (here: the first, paying fast.New + import) looks too slow for the deadline.
+func warmup() {
+	if !rec.ReplayOnly() {
+		getInterp()
 	}
 }
